@@ -1,6 +1,7 @@
 import WfModel.GenJournal
 import WfProofs.JournalWait
 import WfProofs.JournalWitness
+import WfProofs.JournalReplaying
 /-!
 # C27 — DBOS recovery replays a run to the same execution   (PARTIAL: DBOS itself is trusted)
 
@@ -179,6 +180,68 @@ theorem C27_wait_fresh_records {κ : Type} [DecidableEq κ] (a : Adapter κ) (db
 
 example : (waitNext ({ purgeDone := true } : Adapter Nat) ({} : Db Nat) "r" 3 [5, 7] [7] false (some 7)).2.1.load "r"
     = [7] := by decide
+
+/-! ## which ticks' published events a recovered process persists
+
+The server adapter (`_ServerInternalRunAdapter.write_to_event_stream`) appends a published event to the
+workflow store iff `is_replaying()` is `false` at that moment.  The crashed process committed the journal
+row of a completion *before* it published that completion's tick, so the tick of the LAST recorded
+completion may never have been published: the recovered process has to persist it. -/
+
+set_option maxRecDepth 8000 in
+/-- The shapes this part of the model is cut along, re-extracted on every run: `TaskJournal.is_replaying`
+is the cursor test, `InternalDBOSAdapter.is_replaying` is that and nothing else once a database is
+configured, and the server adapter persists (status update, `append_event`) exactly under
+`not self.is_replaying()` while always forwarding to the inner adapter. -/
+theorem C27_replaying_source_shape :
+    GenJournal.isReplayingBody =
+      "if self._entries is None: return False ; return self._replay_index < len(self._entries)" ∧
+    GenJournal.hasEntriesBody = "return self._entries is not None and len(self._entries) > 0" ∧
+    GenJournal.adapterIsReplayingBody =
+      "if self._journal is None and self._resolved_pool is None and (self._db_path is None): return False ; journal = self._get_or_create_journal() ; return journal.is_replaying()" ∧
+    GenJournal.serverPersistGuard =
+      ["flag=self.is_replaying()", "if-not-flag:status,status,status,status,append", "else:none", "forward:always",
+       "append-outside-guard:0"] := by
+  decide
+
+/-- after the call that replays a recorded completion, `is_replaying()` answers whether entries remain
+AFTER it: while the tick of the last recorded completion is processed it is `false` (persist), while the
+tick of an earlier one is processed it is `true` (skip: the crashed process published that tick before it
+journaled the next completion) -/
+theorem C27_last_replayed_tick_live {κ : Type} [DecidableEq κ] (a : Adapter κ) (db : Db κ) (run : String) (fid : Nat)
+    (inflight done : List κ) (timedOut : Bool) (choice : Option κ) (k : κ)
+    (hk : (a.tj.load db run).nextExpected = some k) (hin : inflight.contains k = true)
+    (hdone : done.contains k = true) :
+    (waitNext a db run fid inflight done timedOut choice).1.isReplaying =
+      decide ((a.tj.load db run).idx + 1 < ((a.tj.load db run).entries.getD []).length) :=
+  wait_replay_flag a db run fid inflight done timedOut choice k hk hin hdone
+
+example : (waitNext ({} : Adapter Nat) (({} : Db Nat).insert "r" 0 7) "r" 3 [5, 7] [5, 7] false none).1.isReplaying
+    = false := by decide
+example : (waitNext ({} : Adapter Nat) ((({} : Db Nat).insert "r" 0 7).insert "r" 1 5) "r" 3 [5, 7] [5, 7] false none).1.isReplaying
+    = true := by decide
+
+/-- once the replay is over, no later call turns `is_replaying()` on again (every fresh tick is persisted) -/
+theorem C27_replay_over_stays_over {κ : Type} [DecidableEq κ] (a : Adapter κ) (db : Db κ) (run : String) (fid : Nat)
+    (inflight done : List κ) (timedOut : Bool) (choice : Option κ)
+    (h : (a.tj.load db run).isReplaying = false) :
+    (waitNext a db run fid inflight done timedOut choice).1.isReplaying = false :=
+  wait_replay_over a db run fid inflight done timedOut choice h
+
+example : (({} : Adapter Nat).tj.load ({} : Db Nat) "r").isReplaying = false ∧
+    (waitNext ({} : Adapter Nat) ({} : Db Nat) "r" 3 [5, 7] [7] false (some 7)).1.isReplaying = false := by decide
+
+/-- a new process that replays a recorded journal of any length: `is_replaying()` is `true` after each
+replayed completion except the last, so with `Adapter.persist` exactly the last tick's events are stored -/
+theorem C27_replay_flags {κ : Type} [DecidableEq κ] (db : Db κ) (run : String) :
+    replayFlags ({} : Adapter κ) db run (db.load run) =
+      (List.range (db.load run).length).map (fun j => decide (j + 1 < (db.load run).length)) :=
+  replayFlags_spec run (db.load run) (db.load run) {} db 0 rfl rfl rfl
+
+example : replayFlags ({} : Adapter Nat) (((({} : Db Nat).insert "r" 0 7).insert "r" 1 9).insert "r" 2 4) "r" [7, 9, 4]
+    = [true, true, false] := by decide
+example : ({ tj := { entries := some [7], idx := 1 } } : Adapter Nat).persist [1, 2] [3] = [1, 2, 3] ∧
+    ({ tj := { entries := some [7, 9], idx := 1 } } : Adapter Nat).persist [1, 2] [3] = [1, 2] := by decide
 
 /-! ## the full statements, and why they are false of the code -/
 
